@@ -167,7 +167,7 @@ fn check_2d(s: u64, r: &mut Report, tag: &str) {
     }
     let (v, p): (Vec2, Point2) = match caught(|| (VectorsOnUnitDisk.sample(&mut Xorshift64(s)), PointsOnUnitDisk.sample(&mut Xorshift64(s)))) { Ok(x) => x, Err(e) => { r.violation(format!("unit-disk-panic|{tag}|s={s:#x}"), format!("disk sampler from state {s:#x} panicked: {e}"), case()); return; } };
     let l2 = (v.x() as f64).powi(2) + (v.y() as f64).powi(2);
-    if !(l2 <= 1.0 + 1e-6) || p.x() != v.x() || p.y() != v.y() {
+    if !(l2 <= 1.0 + 2.5e-7) || p.x() != v.x() || p.y() != v.y() {
         r.violation(format!("unit-disk|{tag}|s={s:#x}"), format!("VectorsOnUnitDisk from {s:#x} returned {v:?} (|v|^2={l2}), PointsOnUnitDisk {p:?}"), case());
     }
 }
@@ -186,7 +186,7 @@ fn check_3d(s: u64, r: &mut Report, tag: &str) {
     }
     let (v, p): (Vec3, Point3) = match caught(|| (VectorsInUnitBall.sample(&mut Xorshift64(s)), PointsInUnitBall.sample(&mut Xorshift64(s)))) { Ok(x) => x, Err(e) => { r.violation(format!("unit-ball-panic|{tag}|s={s:#x}"), format!("ball sampler from state {s:#x} panicked: {e}"), case()); return; } };
     let l2 = (v.x() as f64).powi(2) + (v.y() as f64).powi(2) + (v.z() as f64).powi(2);
-    if !(l2 <= 1.0 + 1e-6) || p.x() != v.x() || p.y() != v.y() || p.z() != v.z() {
+    if !(l2 <= 1.0 + 2.5e-7) || p.x() != v.x() || p.y() != v.y() || p.z() != v.z() {
         r.violation(format!("unit-ball|{tag}|s={s:#x}"), format!("VectorsInUnitBall from {s:#x} returned {v:?} (|v|^2={l2}), PointsInUnitBall {p:?}"), case());
     }
 }
@@ -242,6 +242,21 @@ fn check_composite_inner(s: u64, r: &mut Report) {
     ok &= UnitSphere.samples(&mut Xorshift64(s)).next().map(|v| v.0) == Some(UnitSphere.sample(&mut Xorshift64(s)).0);
     ok &= VectorsInUnitBall.samples(&mut Xorshift64(s)).next().map(|v| v.0) == Some(VectorsInUnitBall.sample(&mut Xorshift64(s)).0);
     ok &= Uniform([1000.0f32, -5.0]..[1001.0, -4.999]).samples(&mut Xorshift64(s)).next() == Some(Uniform([1000.0f32, -5.0]..[1001.0, -4.999]).sample(&mut Xorshift64(s)));
+    // ... and whichever way the iterator is consumed (nth, skip, step_by, last of take), sample k is what k+1 calls of
+    // sample() give - for distributions that use several draws per sample, or a varying number of them
+    {
+        macro_rules! seq { ($d:expr) => {{
+            let manual: Vec<_> = { let mut g = Xorshift64(s); (0..5).map(|_| $d.sample(&mut g)).collect() };
+            let a = $d.samples(&mut Xorshift64(s)).nth(2);
+            let b = $d.samples(&mut Xorshift64(s)).skip(1).next();
+            let c: Vec<_> = $d.samples(&mut Xorshift64(s)).step_by(2).take(3).collect();
+            let d = $d.samples(&mut Xorshift64(s)).take(4).last();
+            a == Some(manual[2].clone()) && b == Some(manual[1].clone()) && c == vec![manual[0].clone(), manual[2].clone(), manual[4].clone()] && d == Some(manual[3].clone())
+        }}; }
+        let okn = seq!(Uniform([-1.0f32, 2.0, 10.0]..[1.0, 3.0, 20.0])) && seq!(Uniform(0..10)) && seq!(Uniform(-1.0f32..1.0)) && seq!(Bernoulli(0.5)) && seq!((Uniform(0..10), Bernoulli(0.5)))
+            && seq!(Uniform(vec3::<f32, ()>(-1.0, 2.0, 10.0)..vec3(1.0, 3.0, 20.0))) && seq!(Uniform(pt2::<f32, ()>(-1.0, 2.0)..pt2(1.0, 3.0))) && seq!(UnitCircle) && seq!(VectorsOnUnitDisk) && seq!(UnitSphere) && seq!(VectorsInUnitBall) && seq!(PointsInUnitBall) && seq!(PointsOnUnitDisk);
+        if !okn { r.violation(format!("samples-iterator|s={s:#x}"), format!("samples() consumed through nth / skip / step_by / take(..).last() from state {s:#x} does not yield the values of repeated sample() calls"), obj! {"kind" => "composite", "s" => format!("{s:#x}")}); return; }
+    }
     if !ok { r.violation(format!("composite|s={s:#x}"), format!("array/vector/point/tuple/iterator draw differs from scalar draws in order from state {s:#x}: array {a:?} vs {e:?}, ints {ia:?} vs {ie:?}, tuple {t:?} vs {te:?}"), obj! {"kind" => "composite", "s" => format!("{s:#x}")}); } else { r.nontrivial(); }
 }
 
@@ -364,6 +379,28 @@ fn main() {
             let s = sol3.solve(m1 as u128 | (m2 as u128) << 23 | (t as u128) << 46);
             check_3d(s, r, "boundary-pair-x-top18");
         }));
+        // aimed at the rim of the ball: first draws whose squared length exceeds 1 by 3e-7 .. 9e-7 (a few f32 steps) must be
+        // rejected, whatever comes after; the coordinates are m * 2^-22 - 1, so x and y are free and z to within 2^-17
+        {
+            let coord = |m: u32| (m as f64) * (0.5f64).powi(22) - 1.0;
+            let m_of = |c: f64| (((c + 1.0) * 4194304.0).round() as i64).clamp(0, 0x7FFFFF) as u32;
+            let xs: Vec<f64> = (0..48).map(|k| -0.93 + 0.0391 * k as f64).collect();
+            let zs = [0.011f64, -0.023, 0.04];
+            rep.merge(par_range(&cfg, (xs.len() * zs.len() * 17) as u64, |i, r| {
+                let (x0, z0, dk) = (xs[(i % 48) as usize], zs[(i / 48 % 3) as usize], (i / 144) as i64 - 8);
+                let m1 = m_of(x0);
+                let t = m_of(z0) >> 5;
+                let want_y2 = 1.0 + 6e-7 - coord(m1).powi(2) - coord(t << 5 | 16).powi(2);
+                if want_y2 <= 0.0 { return; }
+                let m2 = (m_of(want_y2.sqrt() * if i % 2 == 0 { 1.0 } else { -1.0 }) as i64 + dk).clamp(0, 0x7FFFFF) as u32;
+                let s = sol3.solve(m1 as u128 | (m2 as u128) << 23 | (t as u128) << 46);
+                if s == 0 { return; }
+                let m3 = mantissa_of(step(step(step(s))));
+                let l2 = coord(mantissa_of(step(s))).powi(2) + coord(mantissa_of(step(step(s)))).powi(2) + coord(m3).powi(2);
+                if l2 > 1.0 + 3e-7 && l2 < 1.0 + 9e-7 { r.h("ball-rim-aimed:first-draw-outside-by-3e-7..9e-7"); } else if l2 > 1.0 - 9e-7 && l2 <= 1.0 { r.h("ball-rim-aimed:first-draw-just-inside"); } else { r.h("ball-rim-aimed:off-target"); }
+                check_3d(s, r, "rim-aimed");
+            }));
+        }
     } else {
         rep.h("gf2-solver-skipped(step not linear)");
     }
